@@ -27,10 +27,13 @@ use std::sync::{
 };
 
 use aranya_fast_channels::verif::{site, VMutex};
-use vrt::{json, Value, J};
-use vsched::{Sched, Status, StepError};
+use vrt::{Value, J};
+use vsched::{Sched, Status};
 
-use crate::hsite;
+use crate::{
+    driver::{self, Control, Fail, Outcome},
+    hsite,
+};
 
 const VISIBLE: &[u32] = &[
     site::MUTEX_CAS1,
@@ -69,120 +72,58 @@ fn matches_pc(st: &Status, pc: &str) -> bool {
     }
 }
 
-struct Outcome {
-    ok: bool,
-    key: String,
-    msg: String,
-    step: i64,
-    drift: u64,
-    steps: u64,
-    obs: Value,
+struct Ctl {
+    n: usize,
+    key_addr: usize,
+    excl_broken: Arc<AtomicBool>,
+    selftest_nowake: bool,
+    swallow: bool,
 }
 
-pub fn run(args: &vrt::Args) {
-    let mut out = args.out();
-    let selftest = args.opt_str("selftest", "");
-    for (i, b) in args.read_input().iter().enumerate() {
-        let mut rng = vrt::Rng::new(args.seed.wrapping_mul(0x1000).wrapping_add(i as u64));
-        match replay(b, &mut rng, &selftest) {
-            Ok(o) => out.emit(json!({"i": i, "ok": o.ok, "step": o.step, "key": o.key, "msg": o.msg,
-                                     "drift": o.drift, "steps": o.steps, "obs": o.obs})),
-            Err(e) => vrt::die(&format!("mutex replay {i}: {e:?}")),
-        }
+impl Ctl {
+    fn key(&self) -> u32 {
+        // SAFETY: `key_addr` is the address of the mutex's `AtomicU32` key; the mutex outlives `Ctl`.
+        unsafe { (*(self.key_addr as *const AtomicU32)).load(Ordering::SeqCst) }
     }
-    out.finish();
 }
 
-fn replay(b: &Value, rng: &mut vrt::Rng, selftest: &str) -> Result<Outcome, StepError> {
-    let n = b.u("threads") as usize;
-    let rounds = b.u("rounds") as usize;
-    let steps = b.a("steps");
-    let sched = Sched::new();
-    sched.set_visible(VISIBLE);
-    let m = Arc::new(VMutex::new(0u64));
-    let key_addr = m.key_addr();
-    let inside = Arc::new(AtomicUsize::new(0));
-    let excl_broken = Arc::new(AtomicBool::new(false));
-    let no_lock = selftest == "nolock";
-    for _ in 0..n {
-        let (m, inside, excl_broken) = (Arc::clone(&m), Arc::clone(&inside), Arc::clone(&excl_broken));
-        sched.spawn(move || {
-            for _ in 0..rounds {
-                // self-test "nolock": thread 0.. skip the mutex: the monitor must notice
-                let g = if no_lock { None } else { Some(m.lock()) };
-                vsched::point(hsite::CS_ENTER, 0, 0);
-                if inside.fetch_add(1, Ordering::Relaxed) != 0 {
-                    excl_broken.store(true, Ordering::Relaxed);
-                }
-                vsched::point(hsite::CS_EXIT, 0, 0);
-                inside.fetch_sub(1, Ordering::Relaxed);
-                drop(g);
-            }
-        });
+impl Control for Ctl {
+    fn thread_of(&self, s: &Value) -> usize {
+        (s.u("t") as usize).wrapping_sub(1)
     }
-    // SAFETY: `key_addr` is the address of the mutex's `AtomicU32` key, alive as long as `m`.
-    let key = || unsafe { (*(key_addr as *const AtomicU32)).load(Ordering::SeqCst) };
-
-    let mut drift = 0u64;
-    let mut nsteps = 0u64;
-    let mut following = true;
-    let mut drift_at: i64 = -1;
-    let mut drift_why = String::new();
-    let mut fail: Option<(String, String, i64)> = None;
-
-    'sched: for (k, s) in steps.iter().enumerate() {
-        let t = (s.u("t") as usize).wrapping_sub(1);
-        let a = s.s("a");
-        let st = sched.status(t);
-        // the spec's step must be the one the real thread is about to take
-        let pre_ok = match (&st, a) {
+    fn pre_ok(&self, s: &Value, st: &Status) -> bool {
+        match (st, s.s("a")) {
             (Status::Sleeping { .. }, "slp") => true,
             (Status::Parked { site, .. }, l) => label_site(l) == Some(*site),
             _ => false,
-        };
-        if !pre_ok {
-            drift += 1;
-            drift_at = k as i64;
-            drift_why = format!("spec step {a}({}) but thread is {:?}", t + 1, st);
-            following = false;
-            break 'sched;
         }
-        let mut spurious = false;
-        match a {
+    }
+    fn before(&mut self, s: &Value, sched: &Sched) -> bool {
+        let t = self.thread_of(s);
+        match s.s("a") {
             "wk" => {
-                // the sleeper the spec's wake picked = newly in wakeTok
+                // the sleeper the spec's wake picked = in the spec's wakeTok, still asleep here
                 let choice = s.a("wk").iter().filter_map(Value::as_u64).map(|x| x as usize - 1).find(|&x| {
                     matches!(sched.status(x), Status::Sleeping { woken: false, .. })
                 });
-                sched.set_wake_choice(if selftest == "nowake" { None } else { choice });
+                sched.set_wake_choice(choice);
+                // self-test "nowake": the wake-up is swallowed — the monitor must report it
+                self.swallow = self.selftest_nowake;
+                false
             }
-            "slp" => spurious = matches!(st, Status::Sleeping { woken: false, .. }),
-            _ => {}
+            "slp" => matches!(sched.status(t), Status::Sleeping { woken: false, .. }),
+            _ => false,
         }
-        if selftest == "nowake" && a == "wk" {
-            // self-test: the wake-up is swallowed — the monitor must report a lost wake-up
-            SWALLOW_WAKE.store(true, Ordering::SeqCst);
-        }
-        sched.step(t, spurious)?;
-        nsteps += 1;
-        if SWALLOW_WAKE.swap(false, Ordering::SeqCst) {
-            sched.unwake(&sched.last_woken());
-        }
-        if excl_broken.load(Ordering::Relaxed) {
-            fail = Some(("C43:mutual-exclusion".into(),
-                         format!("two threads inside the critical section after step {k} ({a}({}))", t + 1), k as i64));
-            break 'sched;
-        }
-        // compare the projected state with the spec's
+    }
+    fn compare(&mut self, s: &Value, sched: &Sched) -> Option<String> {
         let sts = sched.statuses();
-        let mut why = String::new();
-        if key() as u64 != s.u("key") {
-            why = format!("key is {} but spec has {}", key(), s.u("key"));
+        if self.key() as u64 != s.u("key") {
+            return Some(format!("key is {} but spec has {}", self.key(), s.u("key")));
         }
         for (i, pc) in s.a("pc").iter().enumerate() {
             let pc = pc.as_str().unwrap_or("?");
             if !matches_pc(&sts[i], pc) {
-                why = format!("thread {} is {:?} but spec pc is {pc}", i + 1, sts[i]);
+                return Some(format!("thread {} is {:?} but spec pc is {pc}", i + 1, sts[i]));
             }
         }
         let sl: Vec<u64> = s.a("sl").iter().filter_map(Value::as_u64).collect();
@@ -194,58 +135,86 @@ fn replay(b: &Value, rng: &mut vrt::Rng, selftest: &str) -> Result<Outcome, Step
                 _ => (false, false),
             };
             if rs != sl.contains(&id) || rw != wk.contains(&id) {
-                why = format!("sleepers/woken differ for thread {id}: real asleep={rs} woken={rw}, spec sl={sl:?} wk={wk:?}");
+                return Some(format!(
+                    "sleepers/woken differ for thread {id}: real asleep={rs} woken={rw}, spec sl={sl:?} wk={wk:?}"
+                ));
             }
         }
-        if !why.is_empty() {
-            drift += 1;
-            drift_at = k as i64;
-            drift_why = why;
-            following = false;
-            break 'sched;
-        }
+        None
     }
-    let _ = following;
-
-    // free run (after drift or when the schedule ended early): seeded fair choice, no spurious
-    // wake-ups; ends when no thread can run.
-    if fail.is_none() {
-        let mut guard = 0;
-        loop {
-            let sts = sched.statuses();
-            let runnable: Vec<usize> = (0..n).filter(|&i| sched.runnable(i)).collect();
-            if runnable.is_empty() {
-                // monitor: lost wake-up / panic
-                if let Some(i) = sts.iter().position(|s| matches!(s, Status::Panicked(_))) {
-                    fail = Some(("C43:panic".into(), format!("thread {} panicked: {:?}", i + 1, sts[i]), nsteps as i64));
-                } else if let Some(i) = sts.iter().position(|s| matches!(s, Status::Sleeping { .. })) {
-                    fail = Some(("C43:lost-wakeup".into(),
-                                 format!("thread {} is parked in futex_wait with key={} and no thread left to wake it \
-                                          (statuses {:?})", i + 1, key(), sts), nsteps as i64));
-                }
-                break;
-            }
-            let t = *rng.pick(&runnable);
-            sched.step(t, false)?;
-            nsteps += 1;
-            if excl_broken.load(Ordering::Relaxed) {
-                fail = Some(("C43:mutual-exclusion".into(),
-                             "two threads inside the critical section (free run after drift)".into(), nsteps as i64));
-                break;
-            }
-            guard += 1;
-            if guard > 100_000 {
-                vrt::die("mutex free run did not terminate within 100000 steps");
-            }
+    fn monitor(&mut self, sched: &Sched) -> Option<Fail> {
+        if self.swallow {
+            self.swallow = false;
+            sched.unwake(&sched.last_woken());
         }
+        if self.excl_broken.load(Ordering::Relaxed) {
+            return Some(("C43:mutual-exclusion".into(), "two threads inside the critical section".into()));
+        }
+        None
     }
-    let final_sts = format!("{:?}", sched.statuses());
-    sched.abort_and_join();
-    let obs = json!({"drift_at": drift_at, "drift_why": drift_why, "final": final_sts, "key": key()});
-    Ok(match fail {
-        None => Outcome { ok: true, key: String::new(), msg: String::new(), step: -1, drift, steps: nsteps, obs },
-        Some((key, msg, step)) => Outcome { ok: false, key, msg, step, drift, steps: nsteps, obs },
-    })
+    fn finish(&mut self, sched: &Sched) -> Option<Fail> {
+        let sts = sched.statuses();
+        debug_assert_eq!(sts.len(), self.n);
+        if let Some(i) = sts.iter().position(|s| matches!(s, Status::Panicked(_))) {
+            return Some(("C43:panic".into(), format!("thread {} panicked: {:?}", i + 1, sts[i])));
+        }
+        if let Some(i) = sts.iter().position(|s| matches!(s, Status::Sleeping { .. })) {
+            return Some((
+                "C43:lost-wakeup".into(),
+                format!(
+                    "thread {} is parked in futex_wait with key={} and no thread left to wake it (statuses {:?})",
+                    i + 1,
+                    self.key(),
+                    sts
+                ),
+            ));
+        }
+        None
+    }
 }
 
-static SWALLOW_WAKE: AtomicBool = AtomicBool::new(false);
+pub fn run(args: &vrt::Args) {
+    let mut out = args.out();
+    let selftest = args.opt_str("selftest", "");
+    for (i, b) in args.read_input().iter().enumerate() {
+        let mut rng = vrt::Rng::new(args.seed.wrapping_mul(0x1000).wrapping_add(i as u64));
+        let o = replay(b, &mut rng, &selftest);
+        out.emit(o.to_json(i, Value::Null));
+    }
+    out.finish();
+}
+
+fn replay(b: &Value, rng: &mut vrt::Rng, selftest: &str) -> Outcome {
+    let n = b.u("threads") as usize;
+    let rounds = b.u("rounds") as usize;
+    let sched = Sched::new();
+    sched.set_visible(VISIBLE);
+    let m = Arc::new(VMutex::new(0u64));
+    let inside = Arc::new(AtomicUsize::new(0));
+    let excl_broken = Arc::new(AtomicBool::new(false));
+    let no_lock = selftest == "nolock";
+    for _ in 0..n {
+        let (m, inside, excl_broken) = (Arc::clone(&m), Arc::clone(&inside), Arc::clone(&excl_broken));
+        sched.spawn(move || {
+            for _ in 0..rounds {
+                // self-test "nolock": the threads skip the mutex — the monitor must notice
+                let g = if no_lock { None } else { Some(m.lock()) };
+                vsched::point(hsite::CS_ENTER, 0, 0);
+                if inside.fetch_add(1, Ordering::Relaxed) != 0 {
+                    excl_broken.store(true, Ordering::Relaxed);
+                }
+                vsched::point(hsite::CS_EXIT, 0, 0);
+                inside.fetch_sub(1, Ordering::Relaxed);
+                drop(g);
+            }
+        });
+    }
+    let mut ctl = Ctl {
+        n,
+        key_addr: m.key_addr(),
+        excl_broken,
+        selftest_nowake: selftest == "nowake",
+        swallow: false,
+    };
+    driver::run(&sched, b.a("steps"), &mut ctl, rng, 100_000)
+}
